@@ -60,6 +60,14 @@ INVALID_TEXTS = ["", " ", "{", "}", "[1,", "[1 2]", "{\"a\":}", "{'a':1}", "'x'"
                  "\"\\ud800\"", "[\"tab\tin string\"]", "{\"a\" 1}", "{1:2}", "[,]", "undefined", "\"\\u12\"", "--1", "1e", "1e+"]
 
 
+# texts that are invalid as a whole although a part of them is valid JSON (multi-line streams,
+# several documents), and malformed texts with multi-byte characters at every small offset
+# (an error path that slices or echoes the input must not panic)
+INVALID_TEXTS += ["\"first\"\n\"second\"", "1\n2", "garbage\n{\"a\":1}", "{\"a\":1}\n{\"a\":2}", "[1,\n2]\n3", "\"log line\"\n\"result\"\n", "{\"a\":1} x", "x\n1", "null\nnull"]
+MULTIBYTE_MALFORMED = ["{\"cat\": [\"" + "a" * k + "\u00e9\u65e5\U0001F600" * 12 for k in range(0, 70)] + \
+                      ["[" + "\"" + "\u00e9" * k + "\", " for k in (18, 19, 20, 37, 38, 39, 40, 60, 61, 62, 63, 64)]
+
+
 def deep(n, open_="[", close="]", leaf="1"):
     return open_ * n + leaf + close * n
 
@@ -149,6 +157,9 @@ def cli_lane(pid, tier, seed, agg, meta, profiles=("debug", "release")):
     for t in INVALID_TEXTS:
         pairs.append((t, "null")); classes.append("invalid-rule")
         pairs.append(("{\"var\":\"a\"}", t)); classes.append("invalid-data")
+    for t in MULTIBYTE_MALFORMED:
+        pairs.append((t, "null")); classes.append("invalid-rule-multibyte")
+        pairs.append(("{\"var\":\"a\"}", t)); classes.append("invalid-data-multibyte")
     # over-limit nesting: must be an orderly failure (exit 1), never a stack overflow
     for n in (129, 200, 1000, 20000, 45000):
         pairs.append((deep(n), "null")); classes.append("over-limit-rule")
@@ -207,10 +218,16 @@ def cli_lane(pid, tier, seed, agg, meta, profiles=("debug", "release")):
                     rep["samples"].append({"argv": ["jsonlogic", r[:200], d[:200]], "form": f, "exit": rc, "stdout": out.decode("utf8", "replace")[:300]})
         # chain law: cli(r2, stdin = cli(r1, d).stdout) == library apply(r2, parse(apply(r1, d))) for log-free r1
         if pid == "C18":
-            chain_pairs = [(r, d) for (r, d), o in zip(pairs, oracle) if "ok" in o["ret"] and not o["logs"] and len(r) < 5000 and len(d) < 5000 and "\x00" not in r + d][: (60 if tier == "quick" else 600)]
+            nchain = 60 if tier == "quick" else 600
+            ok_pairs = [((r, d), o) for (r, d), o in zip(pairs, oracle) if "ok" in o["ret"] and len(r) < 5000 and len(d) < 5000 and "\x00" not in r + d]
+            quiet = [x for x in ok_pairs if not x[1]["logs"]][:nchain]
+            noisy = [x for x in ok_pairs if x[1]["logs"]][: nchain // 3]
+            chain_pairs = [x[0] for x in quiet + noisy]
             second_rules = ["{\"var\":\"\"}", "{\"cat\":[{\"var\":\"\"},\"!\"]}", "{\"!!\":[{\"var\":\"\"}]}", "{\"merge\":[{\"var\":\"\"},[1.0]]}", "{\"==\":[{\"var\":\"\"},{\"var\":\"\"}]}", "{\"+\":[{\"var\":\"\"}]}"]
             orc1 = libcall(jlmon, chain_pairs)
-            second = [(second_rules[k % len(second_rules)], o["ret"]["ok"]) for k, o in enumerate(orc1)]
+            # what the second invocation receives on stdin is the WHOLE stdout of the first: for a
+            # logging first stage that is several lines, i.e. not one JSON document
+            second = [(second_rules[k % len(second_rules)], "".join(l + "\n" for l in o["logs"] + [o["ret"]["ok"]])) for k, o in enumerate(orc1)]
             orc2 = libcall(jlmon, second)
             m = mons.setdefault("c18.chain", {"observed": 0, "judged": 0, "unjudged": 0, "violations": 0})
             for (r1, d1), (r2, _), o2 in zip(chain_pairs, second, orc2):
@@ -366,6 +383,9 @@ def py_lane(pid, tier, seed, agg, meta, profiles=("debug", "release")):
     for n in (129, 1000, 50000):
         pairs.append((deep(n), "null"))
         pairs.append(("{\"var\":\"\"}", deep(n)))
+    for t in MULTIBYTE_MALFORMED:
+        pairs.append((t, "null"))
+        pairs.append(("{\"var\":\"a\"}", t))
     oracle = libcall(jlmon, pairs)
     d = os.path.join(O.OUT, pid, "py")
     os.makedirs(d, exist_ok=True)
